@@ -186,3 +186,31 @@ Definition site3_eqb (a b : site3) : bool :=
   String.eqb a1 b1 && String.eqb a2 b2 && String.eqb a3 b3.
 Definition unreviewed_state (l : list site3) : list site3 :=
   filter (fun r => negb (existsb (site3_eqb r) reviewed_state)) l.
+
+(* ---------- one context whose id counter continues: when is the statement EXACTLY the fresh one? ----------
+   PlannerContext.Id() is drawn by SimpleLabelFilterPlanner, MainRenewPlanner and ByWithoutPlanner only
+   (CTE aliases subsel_n, pre_by_without_n, labels_n, pre_without_n); any planner this file does not know is
+   counted as drawing ids. *)
+Fixpoint draws_ids (p : planner) : bool :=
+  match p with
+  | PStreamSelect _ | PMainInit | PTimeSeriesInit | PMetrics15 _ _ => false
+  | PFingerprintFilter fp main => draws_ids fp || draws_ids main
+  | PLabelsJoin main fp ts _ => draws_ids main || draws_ids fp || draws_ids ts
+  | PLineFilterP _ _ _ main | PLabelFilterP _ main | PParserP _ _ main | PDropP _ main | PMainOrderBy _ main
+  | PMainLimit main | PMainFinalizer main _ _ | PLraP _ _ _ main | PUnwrapP _ main | PUnwrapFnP _ _ main
+  | PAggOpP _ _ main | PComparisonP _ _ main | PTopKP _ _ main | PQuantileP _ _ main | PStepFixP _ main => draws_ids main
+  | _ => true
+  end.
+Definition add_pid (n : N) (st : pst) : pst :=
+  {| fp_cache := fp_cache st; labels_cache := labels_cache st; pid := (pid st + n)%N |}.
+Definition lift_pid (n : N) (r : res (select * pst * planner)) : res (select * pst * planner) :=
+  match r with Some (q, st', p') => Some (q, add_pid n st', p') | None => None end.
+(* k never executed plans, a new context each, the window advancing one second per call *)
+Fixpoint fresh_seq (k : nat) (p : planner) (c : pctx) : list (option string) :=
+  match k with
+  | O => []
+  | S k' => match process p c pst0 with
+            | None => [None]
+            | Some (q, _, _) => render q (c_cluster c) :: fresh_seq k' p (advance c)
+            end
+  end.
